@@ -23,7 +23,9 @@ func (c *Ctx) CheckGrammar(text string, feats map[string]string) ref.ParseResult
 		return pr
 	}
 	// one-shot Search must reach the same verdict on the text as Compile
-	if ls := c.LibSearch(text, c04Probe); ls.Panic == nil {
+	if strings.Contains(text, "pad_") {
+		// (a generated width could be huge: not executed here)
+	} else if ls := c.LibSearch(text, c04Probe); ls.Panic == nil {
 		cs, ss := lc.Err != nil && lc.Cats == ref.CatSyntax, ls.Err != nil && ls.Cats == ref.CatSyntax
 		if cs != ss {
 			c.Report(Violation{Rule: "C04/search-compile-disagree", Expr: text, Got: "Search: " + ShowOut(ls), Want: "Compile: " + ShowOut(lc), Features: feats})
